@@ -67,6 +67,81 @@ class Fn:
                 st.append(b)
         return seen
 
+    def reachable_ds(self, start=0, removed_edges=(), removed_blocks=(), cap=48):
+        """like reachable(), but prunes switch edges that contradict what the path itself established about the
+        variant of an enum-valued local: `x = Adt::Variant{..}` (aggregate), copies/moves of x, `Try::branch(x)` for
+        Result/Option, `d = discriminant(x)`; `switch d` then follows only the matching target.  Sound: only edges
+        that no execution of the path can take are dropped.  Needed once validation helpers are inlined: their
+        `return Err(..)` and `Ok(..)` meet in one continuation block that the caller's `?` splits again."""
+        rem = set(removed_edges)
+        rb = set(removed_blocks)
+        if start in rb:
+            return set()
+        seen_states = {}
+        out = set()
+        work = [(start, ())]
+        while work:
+            b, envt = work.pop()
+            ss = seen_states.setdefault(b, set())
+            if envt in ss:
+                continue
+            if len(ss) >= cap:
+                if () in ss:
+                    continue
+                envt = ()
+            ss.add(envt)
+            out.add(b)
+            env = dict(envt)
+            bl = self.blocks[b]
+            for st in bl['stmts']:
+                if st.get('k') != 'assign':
+                    continue
+                lhs = st['lhs']
+                l = lhs['l']
+                if lhs['p']:
+                    env.pop(('v', l), None)
+                    env.pop(('d', l), None)
+                    continue
+                rv = st['rv']
+                env.pop(('v', l), None)
+                env.pop(('d', l), None)
+                if rv['k'] == 'aggr' and rv.get('akind') == 'adt' and 'vidx' in rv:
+                    env[('v', l)] = rv['vidx']
+                elif rv['k'] == 'use' and rv['op']['k'] in ('copy', 'move') and not rv['op']['pl']['p']:
+                    src = rv['op']['pl']['l']
+                    for tag in ('v', 'd'):
+                        if (tag, src) in env:
+                            env[(tag, l)] = env[(tag, src)]
+                elif rv['k'] == 'discr' and not rv['pl']['p'] and ('v', rv['pl']['l']) in env:
+                    env[('d', l)] = env[('v', rv['pl']['l'])]
+            t = bl['term']
+            succs = self.succ(b)
+            if t['k'] == 'call':
+                d = t['dest']
+                if not d['p']:
+                    env.pop(('v', d['l']), None)
+                    env.pop(('d', d['l']), None)
+                    f = t['fn']
+                    nm = f.get('name', '') if f.get('k') == 'def' else ''
+                    if nm.endswith('>::branch') and len(t['args']) == 1 and t['args'][0]['k'] in ('copy', 'move') and not t['args'][0]['pl']['p']:
+                        v = env.get(('v', t['args'][0]['pl']['l']))
+                        if v is not None:
+                            if 'std::result::Result' in nm:
+                                env[('v', d['l'])] = v            # Ok(0) -> Continue(0), Err(1) -> Break(1)
+                            elif 'std::option::Option' in nm:
+                                env[('v', d['l'])] = 1 - v        # Some(1) -> Continue(0), None(0) -> Break(1)
+            elif t['k'] == 'switch' and t['op']['k'] in ('copy', 'move') and not t['op']['pl']['p']:
+                dv = env.get(('d', t['op']['pl']['l']))
+                if dv is not None:
+                    hit = [tb for v, tb in t['targets'] if v == str(dv)]
+                    succs = hit[:1] if hit else [t['otherwise']]
+            envt2 = tuple(sorted(env.items()))
+            for s2 in succs:
+                if (b, s2) in rem or s2 in rb:
+                    continue
+                work.append((s2, envt2))
+        return out
+
     def dominators(self):
         """dom[b] = set of blocks dominating b (iterative; bodies are small)"""
         if self._dom is not None:
